@@ -47,6 +47,20 @@ def fixupItem (n : Nat) : Key → Option (Int × Option Int)
   | .slice a b =>
     (fixupSlice n (keyStart a) (keyStop b)).map (fun (x, y) => (x, some y))
 
+/-- `find_def(name, asts=body[lo:hi])` restricted to direct children: the first position `p` in `[lo, hi)` of the real
+field whose element is a def / class of that name (`names[p] = some name`; `none` = not a definition). -/
+def findName (names : List (Option String)) (lo hi : Nat) (name : String) : Option Nat :=
+  (List.range' lo (hi - lo)).find? (fun p => names[p]? == some (some name))
+
+/-- `_fixup_item_indices(idx: str)` for a direct child: `found.pfield.idx - start - idx_off`, where `idx_off` is the
+docstring offset of `_body` (the view's indices are docstring-free, `names` is the real `body`).  `none` = IndexError
+('name index not found'). -/
+def nameItem (v : View) (names : List (Option String)) (idxOff : Nat) (name : String) : Option (Int × Option Int) :=
+  let (start, stop, _) := baseIndices v (names.length - idxOff)
+  match findName names (start + idxOff) (stop + idxOff) name with
+  | none => none
+  | some p => some ((p : Int) - start - idxOff, none)
+
 /-- The result of a view operation: the indices handed to the base node's `_put_slice` / `_put_one`, whether it was the
 single-element form, and a function giving the view afterwards from the new length of the field. -/
 structure Edit where
